@@ -8,6 +8,11 @@
   C01.3  the resolver visits every consecutive pair of the chain and writes the results back to the same two slots
   C01.4  per-peak de-duplication = one-per-key selection by query label and by reference label, each keeping the
          minimum distance
+  C01.6  when two overlapping segments are merged inside the overlap, each is cut at the index from its own index table
+         (as C15.5): a shared table leaves one label in both segments
+  C01.7  the conflict test sees every overlap between neighbouring chain members (as C15.6)
+  C01.8  two records are joined only when they have the same orientation and reference (as C08.4): a '+' part joined
+         with a '-' part cannot have monotone query label numbers
 Declined: that the final matching *is* one-to-one and collinear for every geometry (value-level; see DESIGN.md).
 """
 from __future__ import annotations
@@ -32,6 +37,14 @@ def run(ck):
     from .c02 import fragments, numbering
     fragments(ck, "C01.5")
     numbering(ck, "C01.5")
+    from . import c15, c08
+    ck.clause("C01.6", "overlapping segments are cut at indices from their own index tables (as C15.5)")
+    ck.clause("C01.7", "the conflict test detects every overlap between neighbouring chain members (as C15.6)")
+    ck.clause("C01.8", "records are joined only with equal orientation and reference (as C08.4)")
+    cuts, impls, LS, RS = c15.collect_cuts(ck)
+    c15.per_side_cuts(ck, "C01.6", cuts, impls, LS, RS)
+    c15.overlap_test(ck, "C01.7")
+    c08._eligibility(ck, {}, None, rule="C01.8", wiring=False)
     no_empty_rows(ck)
     resolver_used(ck)
     pairwise_pass(ck, "C01.3")
